@@ -930,11 +930,16 @@ class Order:
         self.repo = repo
         T = self.T = types_of(repo)
 
+        memo: dict[int, bool] = {}
+
         def set_typed(f: FuncInfo, e: ast.expr) -> bool:
-            try:
-                return is_set_type(T.expr(f, e))
-            except Exception:  # noqa: BLE001
-                return False
+            k = id(e)
+            if k not in memo:
+                try:
+                    memo[k] = is_set_type(T.expr(f, e))
+                except Exception:  # noqa: BLE001
+                    memo[k] = False
+            return memo[k]
 
         self.set_typed = set_typed
 
